@@ -144,7 +144,13 @@ class TokenFile:
                 else:
                     s = ""
                     while s == "":
-                        s = pidpath.read_text()
+                        try:
+                            s = pidpath.read_text()
+                        except FileNotFoundError:
+                            # The job finished in the meantime (its PID file
+                            # has just been removed): give back its tokens
+                            self.delete()
+                            return
 
                     logger.info("Loading job watcher from definition")
                     from experimaestro.connectors import Process
